@@ -650,6 +650,20 @@ def check_grid2d(ctx, i):
         ctx.check(unchanged(log), "grid2d.received_unchanged", method="f_vector", calls=[(t, a.shape) for (t, a) in log], **W)
         ctx.check(wrapped_2d(aa, res, aa.VectorYX2D, m, scales, origin, tp) and np.array_equal(_np(res.grid.slim), gin),
                   "grid2d.vector.pairing", result_type=type(res).__name__, expected=tp, got=lambda: _np(res), **W)
+    if i % 4 == 1:
+        # the same grid stored in its native (2-D) form: the vector field still has one entry per unmasked pixel in slim order and
+        # the grid it carries pairs with it entry by entry (vectors[k] sits at vectors.grid[k])
+        try:
+            resn = p.f_vector(grid.native)
+        except Exception:
+            resn = None
+            ctx.skipped["grid2d.vector.native_stored_input:raised"] += 1
+        if resn is not None:
+            ctx.check(isinstance(resn, aa.VectorYX2D) and same_mask2d(resn, m, scales, origin) and _np(resn).shape == (n, 2)
+                      and _np(resn.grid).shape == (n, 2) and np.array_equal(_np(resn.grid), gin),
+                      "grid2d.vector.pairing", input="native-stored Grid2D", result_type=type(resn).__name__, vectors_shape=lambda: _np(resn).shape,
+                      carried_grid_shape=lambda: _np(resn.grid).shape, **W)
+            ctx.classes["vector_field_from_native_stored_grid"] += 1
     ok, res, log = call_logged(ctx, p, "grid2d.exception", p.f_vector_list, grid)
     if ok:
         exp = [tp, 3.0 * tp]
@@ -835,6 +849,12 @@ def check_grid1d(ctx, i):
         line = log[0][1] if len(log) == 1 else None
         ctx.check(line is not None and on_one_line(line, x, tol), "grid1d.line", method="f_array", calls=[(t, a.shape) for (t, a) in log], received=line, **W)
         if line is not None and line.shape == (n, 2):
+            # ... and it is THE radially projected line of the 1-D grid (what the grid itself reports), whatever attributes the
+            # object that owns the function has (its angle matters to project_grid only)
+            own = np.array(_np(grid.grid_2d_radial_projected_from()), dtype=float)
+            ctx.check(own.shape == line.shape and float(np.abs(own - line).max(initial=0.0)) <= tol, "grid1d.line", method="f_array",
+                      what="the line received is the grid's own radially projected line", received=line, grids_own_projection=own, **W)
+        if line is not None and line.shape == (n, 2):
             exp = tags.t(line)
             nat = np.zeros(L)
             nat[~m1] = exp
@@ -851,6 +871,10 @@ def check_grid1d(ctx, i):
     if ok:
         line = log[0][1] if len(log) == 1 else None
         ctx.check(line is not None and on_one_line(line, x, tol), "grid1d.line", method="f_grid", calls=[(t, a.shape) for (t, a) in log], received=line, **W)
+        if line is not None and line.shape == (n, 2):
+            own = np.array(_np(grid.grid_2d_radial_projected_from()), dtype=float)
+            ctx.check(own.shape == line.shape and float(np.abs(own - line).max(initial=0.0)) <= tol, "grid1d.line", method="f_grid",
+                      what="the line received is the grid's own radially projected line", received=line, grids_own_projection=own, **W)
         if line is not None and line.shape == (n, 2):
             exp = tags.pair(line)
             got = _np(res.slim) if hasattr(res, "slim") else _np(res)
